@@ -58,7 +58,7 @@ CHECKS = {
              "index, IndexError on unequal lengths, chi2 deviation sqrt(2k) m / k; get_snr and get_intensity are mutually inverse; stream and "
              "background variances add for every history of sources and every antenna, a background source raising every antenna equally. One "
              "generic model is instantiated with exact rationals (theorems) and binary64 (run against the implementation through a recording "
-             "subclass of numpy's Generator: requests, returned arrays, data, estimates, intensities and noise levels bit for bit). PARTIAL: the "
+             "subclass of numpy's Generator: requests, returned arrays, data, estimates and intensities bit for bit, quadrature levels to 1e-15 relative because x**2 is libm's pow). PARTIAL: the "
              "distribution of numpy's draws is an oracle -- sampled at 6.5 sigma, not proved; sigma-clipped re-estimates are compared with an "
              "independent reference within 1e-9; sqrt rounding in quadrature sums is covered by the twin, not the theorem.",
         design="3/C11", technique="Coq proof over Q (field/induction) + generic model instantiated at binary64 + recorded-generator correspondence"),
